@@ -302,6 +302,8 @@ def run(ctx, uname, u):
             res["bounded"].append(entry)
         else:
             res["obligations"] += 1
+        if kind != "bounded":
+            res.setdefault("obl_list", []).append({"id": o["tag"], "props": props, "ok": r["status"] == "SUCCESSFUL"})
         if r["status"] == "SUCCESSFUL":
             if kind != "bounded":
                 res["discharged"] += 1
